@@ -45,6 +45,33 @@ class Tag(str, enum.Enum):
     A = "a"
     NUM = "1"
 '''
+EXT_SRC = '''
+T_free = typing.TypeVar("T_free")
+T_bound = typing.TypeVar("T_bound", bound=int)
+T_constr = typing.TypeVar("T_constr", int, str)
+class Box(typing.Generic[T_free]):
+    def __init__(self, v: T_free):
+        self.v = v
+class NoHints:
+    def __init__(self, a, b=2):
+        self.a = a
+        self.b = b
+class Empty:
+    pass
+@dataclasses.dataclass
+class WithAny:
+    a: typing.Any
+    b: object = None
+'''
+EXT_NAMES = {
+    "Any": "typing.Any", "object": "object", "list": "list", "dict": "dict", "tuple": "tuple", "set": "set", "frozenset": "frozenset",
+    "typing.List": "typing.List", "typing.Dict": "typing.Dict", "typing.Tuple": "typing.Tuple", "typing.Set": "typing.Set",
+    "typing.Mapping": "typing.Mapping", "typing.Sequence": "typing.Sequence", "typing.Iterable": "typing.Iterable",
+    "T_free": "T_free", "T_bound": "T_bound", "T_constr": "T_constr",
+    "Callable": "typing.Callable[[int], str]", "CallableBare": "typing.Callable", "CallableEll": "typing.Callable[..., int]",
+    "type[int]": "type[int]", "typing.Type": "typing.Type[int]", "Box": "Box", "Box[int]": "Box[int]", "Box[T]": "Box[T_free]",
+    "NoHints": "NoHints", "Empty": "Empty", "WithAny": "WithAny",
+}
 COLL_SPELL = {
     ("list", "builtin"): "list[{a}]", ("list", "typing"): "typing.List[{a}]",
     ("list", "Sequence"): "typing.Sequence[{a}]", ("list", "abcSequence"): "collections.abc.Sequence[{a}]",
@@ -124,6 +151,14 @@ class Env:
             return f"typing.Final[{self.render(t['a'], home)}]"
         if k == "classvar":
             return f"typing.ClassVar[{self.render(t['a'], home)}]"
+        if k == "ext":
+            return EXT_NAMES[t["n"]]
+        if k == "fieldof":
+            self.auxn += 1
+            name = f"FO{self.auxn}"
+            inner = self.render(t["a"], home)
+            self.aux.append((home, f"@dataclasses.dataclass\nclass {name}:\n    x: {inner!r}\n"))
+            return name
         if k == "srcname":          # a type written with a specific source spelling (e.g. "dt.date")
             return t["src"]
         if k == "any":
@@ -229,7 +264,7 @@ class Env:
             self.modules[m] = mod
         for m in mods:
             imports = "".join(f"import {self.modname(o)}\n" for o in mods if o != m)
-            src = header + imports + ENUMS_SRC + "\n" + "\n".join(bodies[m]) + "\n"
+            src = header + imports + ENUMS_SRC + EXT_SRC + "\n" + "\n".join(bodies[m]) + "\n"
             self.sources[m] = src
         # aliases / newtypes are defined after the classes of their home module
         for home, line in self.aux:
